@@ -117,7 +117,9 @@ theorem drawGo_same (a b : Multi) (h : Same a b) (extra : Option (List Line)) (h
     | false =>
       simp only [Bool.not_false, if_true]
       exact ⟨hxy.members, hxy.free, hxy.ordering, hxy.alignment, hxy.orphan, rfl, ⟨hxy.target.W, hxy.target.H, hxy.target.limiter, hxy.target.fx⟩⟩
-  exact key _ _ (h3 _ _) _ _ _ _
+  have setBlank : ∀ (x y : Multi) (p q : Nat), Same x y → Same { x with blankPainted := p } { y with blankPainted := q } :=
+    fun x y p q hxy => ⟨hxy.members, hxy.free, hxy.ordering, hxy.alignment, hxy.orphan, hxy.stale, hxy.target⟩
+  exact setBlank _ _ _ _ (key _ _ (h3 _ _) _ _ _ _)
 
 theorem drawF_same (a b : Multi) (h : Same a b) (force : Bool) (extra : Option (List Line)) (now : Nat) (sa sb : FS) :
     Same (drawF a force extra now sa).1 (drawF b force extra now sb).1 := by
@@ -291,17 +293,18 @@ theorem slotOf_same (x y : FW) (h : SameW x y) (k : Nat) : x.slotOf k = y.slotOf
   simp only [slotOf, h.bars]
 
 /-- `a` is `b` with other values in the fields a failing terminal can disturb -/
-def upd (m : Multi) (z llc : Nat) (ds : DrawState) : Multi := { m with z := z, target := { m.target with llc := llc, ds := ds } }
+def upd (m : Multi) (z llc : Nat) (ds : DrawState) (bp : Nat) : Multi :=
+  { m with z := z, target := { m.target with llc := llc, ds := ds }, blankPainted := bp }
 
-theorem upd_same (m : Multi) (z llc : Nat) (ds : DrawState) : Same (upd m z llc ds) m :=
+theorem upd_same (m : Multi) (z llc : Nat) (ds : DrawState) (bp : Nat) : Same (upd m z llc ds bp) m :=
   ⟨rfl, rfl, rfl, rfl, rfl, rfl, ⟨rfl, rfl, rfl, rfl⟩⟩
 
-theorem Same.eq_upd {a b : Multi} (h : Same a b) : a = upd b a.z a.target.llc a.target.ds := by
+theorem Same.eq_upd {a b : Multi} (h : Same a b) : a = upd b a.z a.target.llc a.target.ds a.blankPainted := by
   obtain ⟨h1, h2, h3, h4, h5, h6, ⟨t1, t2, t3, t4⟩⟩ := h
   cases a with
-  | mk am af ao at_ aa aor az ast =>
+  | mk am af ao at_ aa aor az ast abp =>
     cases b with
-    | mk bm bf bo bt ba bor bz bst =>
+    | mk bm bf bo bt ba bor bz bst bbp =>
       cases at_ with
       | mk aW aH allc alim ads afx =>
         cases bt with
@@ -310,8 +313,8 @@ theorem Same.eq_upd {a b : Multi} (h : Same a b) : a = upd b a.z a.target.llc a.
           subst h1 h2 h3 h4 h5 h6 t1 t2 t3 t4
           rfl
 
-theorem insert_upd (m : Multi) (z llc : Nat) (ds : DrawState) (il : InsertLoc) :
-    (upd m z llc ds).insert il = (m.insert il).map (fun p => (upd p.1 z llc ds, p.2)) := by
+theorem insert_upd (m : Multi) (z llc : Nat) (ds : DrawState) (bp : Nat) (il : InsertLoc) :
+    (upd m z llc ds bp).insert il = (m.insert il).map (fun p => (upd p.1 z llc ds bp, p.2)) := by
   unfold Multi.insert upd
   simp only []
   cases m.free.getLast? with
@@ -349,11 +352,11 @@ theorem stepGo_same (x y : FW) (h : SameW x y) (op : MOp) : SameW (x.stepGo op).
       generalize x.multi.target.ds = d at hxm
       rw [hxm, insert_upd]
       cases y.multi.insert il with
-      | none => exact ⟨upd_same _ _ _ _, h.bars, h.now, rfl, h.ux, h.uy⟩
+      | none => exact ⟨upd_same _ _ _ _ _, h.bars, h.now, rfl, h.ux, h.uy⟩
       | some q =>
         obtain ⟨m2, i2⟩ := q
         simp only [Option.map_some]
-        exact ⟨upd_same m2 z l d, by simp only [h.bars, h.now], h.now, h.panicked, h.ux, h.uy⟩
+        exact ⟨upd_same m2 z l d _, by simp only [h.bars, h.now], h.now, h.panicked, h.ux, h.uy⟩
   | remove k =>
     simp only [stepGo, hs]
     cases y.slotOf k with
